@@ -368,10 +368,24 @@ theorem step_good (s : St) (ev : Ev) (hg : Good s) : Good (step .clean s ev) := 
     rcases hv with rfl | hv
     · exact hs
     · exact hh v hv
+  | own k o =>
+    simp only [step]
+    split
+    · exact ⟨hc, hs, hh⟩
+    · rename_i v0 hv0
+      have hv0ok := hh v0 (List.mem_of_getElem? hv0)
+      have ok := prog_ok s.h v0 o hc hv0ok
+      have := run_good_heap s.h _ hc ok
+      refine ⟨this.1, hdrOk_run _ _ _ hs, ?_⟩
+      intro v hv
+      rcases List.mem_or_eq_of_mem_set hv with hv | rfl
+      · exact hdrOk_run _ _ v (hh v hv)
+      · exact this.2
 
 theorem step_stable (s : St) (ev : Ev) (hg : Good s) (v : Hdr) (hv : hdrOk s.h v) :
     (step .clean s ev).h.view v = s.h.view v ∧ hdrOk (step .clean s ev).h v := by
-  obtain ⟨hc, hs, _⟩ := hg
+  have hg' := hg
+  obtain ⟨hc, hs, _⟩ := hg'
   cases ev with
   | op o =>
     have ok := prog_ok s.h s.store o hc hs
@@ -380,6 +394,14 @@ theorem step_stable (s : St) (ev : Ev) (hg : Good s) (v : Hdr) (hv : hdrOk s.h v
     have ok := prog_ok s.h s.store o hc hs
     exact ⟨run_stable s.h _ ok.owned v hv hc, hdrOk_run _ _ v hv⟩
   | copy => exact ⟨rfl, hv⟩
+  | own k o =>
+    simp only [step]
+    split
+    · exact ⟨rfl, hv⟩
+    · rename_i v0 hv0
+      have hv0ok := hg.2.2 v0 (List.mem_of_getElem? hv0)
+      have ok := prog_ok s.h v0 o hc hv0ok
+      exact ⟨run_stable s.h _ ok.owned v hv hc, hdrOk_run _ _ v hv⟩
 
 theorem runEvs_good (evs : List Ev) : ∀ s : St, Good s → Good (runEvs .clean s evs) := by
   induction evs with
